@@ -225,7 +225,7 @@ T('C18', 'twin-dtw-argmin', CMP, "            m = min(ul, min(u, l))\n          
 M('C19', 'column-resolution', RAS, "        idx = (float(coord.getX()) - self.xmin) / self.resolution[0]", "        idx = (float(coord.getX()) - self.xmin) / self.resolution[1]", 'C19.C')
 M('C19', 'row-arm-floor', RAS, "            line = math.floor(idy) + 1 # il faut arrondir par le dessus!", "            line = math.floor(idy) # il faut arrondir par le dessus!", 'C19.C')
 M('C19', 'sum-no-nan-skip', UT, "        val = tarray[i]\n        if isnan(val):\n            continue\n        somme += val\n    return somme", "        val = tarray[i]\n        somme += val\n    return somme", 'C19.A')
-M('C19', 'nodata-never', RAS, "                    if isnan(sumval):\n                        afmap.grid[i][j] = NO_DATA_VALUE", "                    if sumval is None:\n                        afmap.grid[i][j] = NO_DATA_VALUE", 'C19.N')
+M('C19', 'nodata-never', RAS, "                    if isnan(sumval):\n                        afmap.grid[i][j] = NO_DATA_VALUE", "                    if sumval is None:\n                        afmap.grid[i][j] = NO_DATA_VALUE", 'C19.S')
 T('C19', 'twin-count-loop', UT, "    count = 0\n    for i in range(len(tarray)):\n        val = tarray[i]\n        if isnan(val):\n            continue\n        count += 1\n    return count\n\n\ndef co_count_distinct",
   "    n = 0\n    for k in range(0, len(tarray)):\n        v = tarray[k]\n        if not isnan(v):\n            n = n + 1\n    return n\n\n\ndef co_count_distinct")
 
